@@ -35,7 +35,17 @@ func c16Histories(quick bool) [][]SeqOp {
 		}
 		return h
 	}
-	hs := [][]SeqOp{mk(7, false, false), mk(8, true, false), mk(9, true, true), mk(12, true, true)}
+	// holds renewed with the update flag, records several seconds old when the compaction starts
+	upd := func(n int) []SeqOp {
+		h := []SeqOp{
+			op(0, z(L(0, 30, 30, 0, 90, 0, 1))),
+			op(0, withF(z(L(0, 30, 30, 0, 120, 0, 1)), 0x02)), // update of an existing hold
+			op(0, withF(withEF(L(0, 31, 31, 0, 3, 0, 0), efZeroAof|fMinute), 0x02)), // update flag on a fresh key, minute lease
+			tick(3 * sec),
+		}
+		return append(h, mk(n, true, false)...)
+	}
+	hs := [][]SeqOp{mk(7, false, false), mk(8, true, false), mk(9, true, true), mk(12, true, true), upd(7)}
 	if !quick {
 		hs = append(hs, mk(5, true, false), mk(10, false, true), mk(14, true, true), mk(16, true, false),
 			append(mk(6, true, false), tick(3*sec), op(0, z(L(0, 20, 20, 0, 2, 0, 0))), tick(4*sec), op(0, z(L(0, 21, 21, 0, 90, 0, 0))), op(0, z(L(0, 22, 22, 0, 90, 0, 0)))))
